@@ -35,8 +35,8 @@ impl Stack {
         }
     }
 
-    pub(super) fn is_empty(&self) -> bool {
-        self.entries.is_empty()
+    pub(super) fn clear(&mut self) {
+        self.entries.clear();
     }
 
     #[cfg(chalk_verif)]
